@@ -1,6 +1,7 @@
 package harness
 
 import (
+	"encoding/base64"
 	"fmt"
 	"strings"
 	"time"
@@ -134,6 +135,29 @@ func (c *AttackCtx) attackerSign(el *etree.Element, variant int) {
 	spec.AfterIssuer = variant%8 < 4
 	if err := SignInPlace(el, spec); err == nil {
 		c.note("attacker-signed")
+		// KeyInfo lies outside SignedInfo: a second X509Certificate (a TRUSTED one) can be put beside the
+		// attacker's own, before or after it — whichever certificate a validator picks, this signature was
+		// not made by a trusted key
+		if k := (variant / 8) % 3; k != 0 && len(c.SP.Store) > 0 && spec.Embed != nil {
+			for _, sg := range el.ChildElements() {
+				if sg.Tag != "Signature" {
+					continue
+				}
+				if xd := findTag(sg, "X509Data"); xd != nil {
+					if first := findTag(xd, "X509Certificate"); first != nil {
+						extra := first.Copy()
+						extra.SetText(base64.StdEncoding.EncodeToString(c.SP.Store[0].DER()))
+						if k == 1 {
+							xd.AddChild(extra)
+						} else {
+							xd.InsertChildAt(first.Index(), extra)
+						}
+						c.note(fmt.Sprintf("keyinfo-two-certs:%d", k))
+					}
+				}
+				break
+			}
+		}
 	}
 }
 
